@@ -753,6 +753,132 @@ theorem fieldCodec_budget {N N' : Nat} {T : GoType} {c c' : Codec} (h : fieldCod
   rw [h1] at h2
   cases h2; rfl
 
+/-! ## the generated schema denotes an Avro schema -/
+
+theorem classify_nullable {fa : Nat} {u : Schema} {a : ASchema} (h : classify fa u = some a) :
+    classify (fa + 3) (nullableSchema u) = some (.union [.null, a]) := by
+  obtain ⟨fa', rfl⟩ : ∃ fa', fa = fa' + 1 := by
+    cases fa with
+    | zero => simp [classify] at h
+    | succ k => exact ⟨k, rfl⟩
+  have h0 : classify (fa' + 1 + 1) (Schema.prim "null") = some .null := by
+    simp [classify, Schema.prim, Schema.type]
+  have h2 : classifyBranches (fa' + 1 + 2) [Schema.prim "null", u] = some [.null, a] := by
+    simp [classifyBranches, h0, h]
+  simp [classify, nullableSchema, Schema.type, Schema.union, h2]
+
+theorem classify_array {fa : Nat} {u : Schema} {a : ASchema} (h : classify fa u = some a) :
+    classify (fa + 1) (arraySchema u) = some (.array a) := by
+  simp [classify, arraySchema, Schema.type, Schema.object, SchemaObject.items, h]
+
+theorem classify_map {fa : Nat} {u : Schema} {a : ASchema} (h : classify fa u = some a) :
+    classify (fa + 1) (mapSchema u) = some (.map a) := by
+  simp [classify, mapSchema, Schema.type, Schema.object, SchemaObject.values, h]
+
+theorem classify_record {fa : Nat} {nm pkg : String} {sfs : List SchemaField} {ns : List String} {as : List ASchema}
+    (h : classifyFields fa sfs = some (ns, as)) :
+    classify (fa + 1) (recordSchema nm pkg sfs) = some (.record ns as) := by
+  simp [classify, recordSchema, Schema.type, Schema.object, SchemaObject.fields, h]
+
+theorem classifyFields_frag : ∀ fs : List GoField,
+    (∀ f ∈ fs, nameForField f ≠ "-" → ∀ fa, f.type.bfuel + 3 ≤ fa →
+      ∃ a, classify fa (omitWrap (omitEmptyTag f.jsonTag) (genSchema f.type)) = some a) →
+    ∀ fa, GoField.bfuelList fs + fs.length + 4 ≤ fa → ∃ r, classifyFields fa (fieldSchemas fs) = some r
+  | [], _, fa, hfa => by
+    obtain ⟨k, rfl⟩ : ∃ k, fa = k + 1 := ⟨fa - 1, by omega⟩
+    exact ⟨_, rfl⟩
+  | f :: fs, h, fa, hfa => by
+    rw [bfuelList_cons, List.length_cons] at hfa
+    have ih := classifyFields_frag fs (fun g hg => h g (List.mem_cons_of_mem _ hg))
+    rw [fieldSchemas_cons]
+    by_cases hn : nameForField f = "-"
+    · simp only [hn, beq_self_eq_true, if_true]
+      exact ih fa (by omega)
+    · have hn' : (nameForField f == "-") = false := by simpa using hn
+      simp only [hn', Bool.false_eq_true, if_false]
+      obtain ⟨k, rfl⟩ : ∃ k, fa = k + 1 := ⟨fa - 1, by omega⟩
+      obtain ⟨a, ha⟩ := h f List.mem_cons_self hn k (by omega)
+      obtain ⟨⟨ns, as⟩, hr⟩ := ih k (by omega)
+      exact ⟨_, by simp only [classifyFields, SchemaField.type, SchemaField.name, ha, hr] <;> rfl⟩
+
+theorem classify_wrap {T : GoType} (hF : Frag T = true)
+    (h : ∀ fa, T.bfuel ≤ fa → ∃ a, classify fa (bareSchema T) = some a) (oe : Bool) (fa : Nat)
+    (hfa : T.bfuel + 3 ≤ fa) : ∃ a, classify fa (omitWrap oe (genSchema T)) = some a := by
+  obtain ⟨k, rfl⟩ : ∃ k, fa = k + 3 := ⟨fa - 3, by omega⟩
+  obtain ⟨a, ha⟩ := h k (by omega)
+  have hty := bare_type (T.depth + 1) T (by omega) hF
+  by_cases hu : unionTyped T = true
+  · simp only [genSchema, wrapN, hu, if_true, omitWrap_union]
+    exact ⟨_, classify_nullable ha⟩
+  · have hu' : unionTyped T = false := by simpa using hu
+    simp only [genSchema, wrapN, hu', Bool.false_eq_true, if_false]
+    cases oe with
+    | true => rw [omitWrap_true hty.1]; exact ⟨_, classify_nullable ha⟩
+    | false => rw [omitWrap_false]; exact h (k + 3) (by omega)
+
+theorem classify_bare : ∀ d (T : GoType), T.depth < d → Frag T = true →
+    ∀ fa, T.bfuel ≤ fa → ∃ a, classify fa (bareSchema T) = some a := by
+  intro d
+  induction d with
+  | zero => intro T h; omega
+  | succ d ih =>
+    intro T hd hT fa hfa
+    cases T <;> simp only [Frag] at hT <;> try contradiction
+    case slice e =>
+      simp only [GoType.depth] at hd
+      simp only [GoType.bfuel] at hfa
+      obtain ⟨k, rfl⟩ : ∃ k, fa = k + 1 := ⟨fa - 1, by omega⟩
+      simp only [bareSchema]
+      by_cases hu : isU8n e = true
+      · simp only [hu, if_true]
+        exact ⟨_, by simp [classify, Schema.prim, Schema.type] <;> rfl⟩
+      · have hu' : isU8n e = false := by simpa using hu
+        have hF : Frag e = true := by simpa [hu'] using hT
+        simp only [hu', Bool.false_eq_true, if_false]
+        obtain ⟨a, ha⟩ := classify_wrap hF (ih e (by omega) hF) false k (by omega)
+        rw [omitWrap_false] at ha
+        exact ⟨_, classify_array ha⟩
+    case map k v =>
+      simp only [GoType.depth] at hd
+      simp only [GoType.bfuel] at hfa
+      simp only [Bool.and_eq_true] at hT
+      obtain ⟨k, rfl⟩ : ∃ k, fa = k + 1 := ⟨fa - 1, by omega⟩
+      simp only [bareSchema]
+      obtain ⟨a, ha⟩ := classify_wrap hT.2 (ih v (by omega) hT.2) false k (by omega)
+      rw [omitWrap_false] at ha
+      exact ⟨_, classify_map ha⟩
+    case ptr e =>
+      simp only [GoType.depth] at hd
+      simp only [GoType.bfuel] at hfa
+      simp only [bareSchema]
+      exact ih e (by omega) hT fa (by omega)
+    case struct nm pkg fs =>
+      simp only [GoType.depth] at hd
+      simp only [GoType.bfuel] at hfa
+      simp only [Bool.and_eq_true] at hT
+      obtain ⟨k, rfl⟩ : ∃ k, fa = k + 1 := ⟨fa - 1, by omega⟩
+      simp only [bareSchema]
+      obtain ⟨⟨ns, as⟩, hr⟩ := classifyFields_frag fs (fun f hf hn fa hfa => by
+        have hdl := GoField.depth_le_depthList hf
+        have hF := fragFields_mem hT.2 hf hn
+        exact classify_wrap hF (ih f.type (by omega) hF) _ fa hfa) k (by omega)
+      exact ⟨_, classify_record hr⟩
+    case nullT k =>
+      simp only [GoType.bfuel] at hfa
+      obtain ⟨j, rfl⟩ : ∃ j, fa = j + 1 := ⟨fa - 1, by omega⟩
+      cases k <;> exact ⟨_, by simp [bareSchema, nullInnerS, classify, Schema.prim, Schema.type] <;> rfl⟩
+    all_goals
+      simp only [GoType.bfuel] at hfa
+      obtain ⟨j, rfl⟩ : ∃ j, fa = j + 1 := ⟨fa - 1, by omega⟩
+      exact ⟨_, by simp [bareSchema, classify, Schema.prim, Schema.type] <;> rfl⟩
+
+/-- **The generated schema of a type of the fragment denotes an Avro schema** (`classify`: the
+schema.go representation ↦ the specification's `ASchema`), with any fuel from `T.bfuel + 3` on. -/
+theorem classify_frag (T : GoType) (hT : Frag T = true) (fa : Nat) (hfa : T.bfuel + 3 ≤ fa) :
+    ∃ a, classify fa (genSchema T) = some a := by
+  have := classify_wrap hT (classify_bare (T.depth + 1) T (by omega) hT) false fa hfa
+  rwa [omitWrap_false] at this
+
 /-! non-vacuity: `tBig` (NormSpec.lean) has every case of the fragment; `tSkip` has skipped fields
 (unexported, `json:"-"`, `bq:"-"`) of types outside the fragment, also in a nested struct -/
 
